@@ -1,6 +1,7 @@
 package harness
 
 import (
+	"sync/atomic"
 	"bytes"
 	"crypto/sha256"
 	"encoding/base64"
@@ -491,7 +492,13 @@ func RunKV(sc *KVScenario, log *EventLog, workDir string) error {
 				ev["errs"] = "no hooks"
 				break
 			}
-			opts := []fscache.Option{fscache.WithBaseDir(r.dir), fscache.WithTimeout(30 * time.Millisecond)}
+			tmo := 30 * time.Millisecond
+			if op.How == "tiny" {
+				// no hold at all: a timeout so short that Set returns before its writer has got anywhere,
+				// and the caller's buffer changes while the store may still be taking the value over
+				tmo = time.Nanosecond
+			}
+			opts := []fscache.Option{fscache.WithBaseDir(r.dir), fscache.WithTimeout(tmo)}
 			if sc.Backend == "fsenc" {
 				opts = append(opts, fscache.WithEncryption(encKey))
 			}
@@ -740,11 +747,13 @@ func RunKV(sc *KVScenario, log *EventLog, workDir string) error {
 			stop := make(chan struct{})
 			var wg sync.WaitGroup
 			var mu sync.Mutex
-			gets, torn, unk, gerr, serr := 0, 0, 0, 0, 0
+			gets, torn, unk, gerr, serr, absent := 0, 0, 0, 0, 0, 0
+			var stored atomic.Bool // some Set of this round has returned success
 			conns := []driver.Conn{r.conn}
-			if op.How == "two" && r.dir != "" {
-				// a second handle on the same directory (another component of the same process)
-				opts := []fscache.Option{fscache.WithBaseDir(r.dir)}
+			if (op.How == "two" || op.How == "mtime") && r.dir != "" {
+				// a second handle on the same directory (another component of the same process);
+				// "mtime": that handle touches the file on every hit (update_mtime=on), the readers go through it
+				opts := []fscache.Option{fscache.WithBaseDir(r.dir), fscache.WithUpdateMTime(op.How == "mtime")}
 				if sc.Backend == "fsenc" {
 					opts = append(opts, fscache.WithEncryption(encKey))
 				}
@@ -766,6 +775,8 @@ func RunKV(sc *KVScenario, log *EventLog, workDir string) error {
 							mu.Lock()
 							serr++
 							mu.Unlock()
+						} else {
+							stored.Store(true)
 						}
 					}
 				}(wi)
@@ -778,9 +789,13 @@ func RunKV(sc *KVScenario, log *EventLog, workDir string) error {
 							return
 						default:
 						}
+						had := stored.Load() // read before the Get begins: the Set had completed by then
 						b, err := conns[len(conns)-1].Get(key)
 						mu.Lock()
 						gets++
+						if had && op.P != 1 && errors.Is(err, driver.ErrNotExist) {
+							absent++ // nobody deletes in this round: the key cannot be absent after a completed Set
+						}
 						if err == nil {
 							id, t := r.identify(b)
 							torn += t
@@ -814,6 +829,7 @@ func RunKV(sc *KVScenario, log *EventLog, workDir string) error {
 			wg.Wait()
 			ev["ok"] = b2i(serr == 0)
 			ev["torn"], ev["unknown"], ev["st"], ev["rv"] = torn, unk, gerr, gets
+			ev["absent"] = absent
 		case "api_list":
 			prefix := ""
 			if op.P >= 0 {
